@@ -60,6 +60,38 @@ def dbits(x):
     return struct.pack(">d", float(x))
 DV = b"d\"v\\\x01\xff"
 
+ENV_KEYS = ("routing", "buffer_kb", "issend_freq", "num_irecvs", "isends_wait", "placement", "policy")
+
+
+def env_of(case, base=None):
+    """the communicator / simulator settings of a case (recorded in the case, so a replay runs under the same settings)"""
+    e = dict(base or {})
+    e["YGM_COMM_ROUTING"] = case.get("routing", "NONE")
+    for key, var in (("buffer_kb", "YGM_COMM_BUFFER_SIZE_KB"), ("issend_freq", "YGM_COMM_ISSEND_FREQ"), ("num_irecvs", "YGM_COMM_NUM_IRECVS"),
+                     ("isends_wait", "YGM_COMM_NUM_ISENDS_WAIT")):
+        if case.get(key) is not None:
+            e[var] = case[key]
+    if case.get("placement") == "cyclic":
+        e["SIMMPI_PLACEMENT"] = "cyclic"
+    return e
+
+
+def rotate_env(cases):
+    """environment dimension rotated over the existing cases (not multiplied): Issend frequency, posted receives, isends-wait,
+    node placement; send-buffer sizes 0 and 1 KB occur with every kind"""
+    per_kind = {}
+    for i, c in enumerate(cases):
+        c.setdefault("issend_freq", (8, 0, 1)[i % 3])
+        c.setdefault("num_irecvs", (8, 1, 2)[(i + i // 3) % 3])
+        c.setdefault("isends_wait", (4, 0, 1)[(i + 2 * (i // 3) + i // 9) % 3])
+        if c["nodes"] > 1:
+            c.setdefault("placement", "cyclic" if i % 2 == 0 else "block")
+        j = per_kind.get(c["kind"], 0)
+        per_kind[c["kind"]] = j + 1
+        if "buffer_kb" not in c:
+            c["buffer_kb"] = (None, 0, 1, None, 1, 0)[j % 6]
+    return cases
+
 
 def unhex(h):
     return b"" if h == "-" else bytes.fromhex(h)
@@ -88,7 +120,7 @@ def gen_cases(tier, seed):
                         flags |= 1024          # the target has unflushed operations when deserialize is called
                     n = rnd.choice([0, 1, 3]) if rnd.random() < 0.25 else rnd.choice([8, 20, 45])
                     cases.append({"kind": kind, "nodes": nodes, "ppn": ppn, "n": n, "flags": flags, "seed": rnd.randrange(1, 10 ** 9),
-                                  "sim_seed": rnd.randrange(1, 10 ** 6), "routing": rnd.choice(["NONE", "NR", "NLNR"]), "buffer_kb": rnd.choice([None, None, 1, 0])})
+                                  "sim_seed": rnd.randrange(1, 10 ** 6), "routing": rnd.choice(["NONE", "NR", "NLNR"])})
     # 9, 10 and 11 ranks (file-name suffixes of different widths), every kind; and directed: unflushed operations on the target
     for rep in range(1 if tier == "quick" else 6):
         for i, kind in enumerate(KINDS):
@@ -111,6 +143,19 @@ def gen_cases(tier, seed):
     # directed: 4 ranks, big set first, then one key (the scenario of the stale-file change), and the same on one rank with an empty set
     cases.append({"kind": "set", "nodes": 1, "ppn": 4, "n": 1, "flags": 128 | 8, "seed": 7, "sim_seed": 1})
     cases.append({"kind": "multiset", "nodes": 2, "ppn": 2, "n": 0, "flags": 128 | 1, "seed": 8, "sim_seed": 1})
+    # two counting_sets of one type, both with un-flushed inserts at serialize and at deserialize, either registration order
+    for rep in range(1 if tier == "quick" else 8):
+        for order in (0, 4096):
+            for (nodes, ppn) in (rnd.choice(LAYOUTS), rnd.choice(LAYOUTS[1:])):
+                cases.append({"kind": "cset2", "nodes": nodes, "ppn": ppn, "n": rnd.choice([3, 12, 30]), "flags": order | rnd.choice([0, 8]) | rnd.choice([0, 32]),
+                              "seed": rnd.randrange(1, 10 ** 9), "sim_seed": rnd.randrange(1, 10 ** 6), "routing": rnd.choice(["NONE", "NR", "NLNR"])})
+    # dependent pairs of one issuer pending at serialize: every async its own MPI message (capacity 0), 8 posted receives
+    for rep in range(1 if tier == "quick" else 6):
+        for kind in ("set", "multiset", "map", "multimap", "mapcount", "mapd"):
+            nodes, ppn = rnd.choice([(1, 2), (1, 3), (2, 2), (1, 4)])
+            cases.append({"kind": kind, "nodes": nodes, "ppn": ppn, "n": 4, "flags": 8192 | rnd.choice([0, 1]), "seed": rnd.randrange(1, 10 ** 9),
+                          "sim_seed": rnd.randrange(1, 10 ** 6), "routing": rnd.choice(["NONE", "NR", "NLNR"]), "buffer_kb": 0, "num_irecvs": 8,
+                          "issend_freq": rnd.choice([0, 8]), "policy": rnd.choice(["uniform", "burst", "late"])})
     # strings with NUL bytes, kept apart so that their failures cannot mask anything else; first the minimal directed one
     cases.insert(0, {"kind": "set", "nodes": 1, "ppn": 1, "n": 2, "flags": 4 | 64, "seed": 1, "sim_seed": 1})
     for kind in (KINDS if tier != "quick" else ["map", "set", "bag"]):
@@ -122,8 +167,7 @@ def gen_cases(tier, seed):
 
 def run_case(binary, case):
     return C.run_sim(binary, ["ser", case["kind"], case["seed"], case["n"], case["flags"]], nodes=case["nodes"], ppn=case["ppn"],
-                     sim_seed=case.get("sim_seed", 1), want_log=False, timeout=120, env=dict({"YGM_COMM_ROUTING": case.get("routing", "NONE")},
-                              **({"YGM_COMM_BUFFER_SIZE_KB": case["buffer_kb"]} if case.get("buffer_kb") is not None else {})))
+                     sim_seed=case.get("sim_seed", 1), policy=case.get("policy", "uniform"), want_log=False, timeout=180, env=env_of(case))
 
 
 def parse_elem(kind, w):
@@ -146,10 +190,10 @@ def show_elem(e):
 def parse_run(kind, sr, ranks):
     per = []
     for r in range(ranks):
-        d = {"ins": [], "a": [], "b": [], "m": [], "file": None, "extra": None, "cursor": None}
+        d = {"ins": [], "a": [], "b": [], "m": [], "ms": [], "file": None, "extra": None, "cursor": None}
         for l in sr.outs.get(r, []):
             w = l.split(" ")
-            if w[0] in ("ins", "a", "b", "m"):
+            if w[0] in ("ins", "a", "b", "m", "ms"):
                 d[w[0]].append(parse_elem(kind, w[1]))
             elif w[0] == "file":
                 d["file"] = unhex(w[1])
@@ -215,7 +259,8 @@ def truncate_nul(e, kind):
 
 
 def check_case(res, case, sr, model_ok):
-    kind, ranks = case["kind"], case["nodes"] * case["ppn"]
+    hkind, ranks = case["kind"], case["nodes"] * case["ppn"]
+    kind = "cset" if hkind == "cset2" else hkind       # cset2: the two-counting-sets scenario, analysed like cset
     cs = dict(case)
     nul = bool(case["flags"] & 4)
     if sr.verdict != "ok":
@@ -256,6 +301,9 @@ def check_case(res, case, sr, model_ok):
                 return True
         return False
 
+    def order_broken():
+        return any(k.startswith(b"erased-") or (k.startswith(b"over-") and v in (b"first", 1, dbits(1.0))) for (k, v) in (got_b - expect))
+
     def fail(what, sig, **kw):
         if has_nul:
             # is the difference exactly the NUL truncation the model predicts?
@@ -263,6 +311,9 @@ def check_case(res, case, sr, model_ok):
         elif (case["flags"] & 1024) and (sig.startswith("c20-reload") or sig == "c20-target-not-replaced") and pending_survived():
             sig = "c20-target-pending-survived"
             what += "; operations issued on the target right before deserialize (no barrier) are part of the reloaded container"
+        elif (case["flags"] & 8192) and sig.startswith("c20-reload") and order_broken():
+            sig = "c20-pending-order"
+            what += "; an erased key / an overwritten first value of an (insert; erase) or (insert v1; insert v2) pair issued by one rank is in the image"
         elif stale_back and sig.startswith("c20-reload"):
             sig = "c20-stale-rank-file"
             what += f"; ranks {stale_back} reloaded keys of the container serialized to this prefix EARLIER (their file was not overwritten)"
@@ -322,7 +373,15 @@ def check_case(res, case, sr, model_ok):
         dflt = 5 if (kind == "mapcount" and case["flags"] & 16) else 0
         marks = {k: v for d in per for (k, v) in d["m"] if k.startswith(b"\x02marker")}
         if len(marks) != ranks or any(v != dflt + 1 for v in marks.values()):
-            fail(f"counting_set default count not restored: fresh keys count {sorted(marks.values())}, expected {dflt + 1}", "c20-default-count")
+            fail(f"counting_set default count not restored / later inserts lost: fresh keys count {sorted(marks.values())}, expected {ranks} x {dflt + 1}",
+                 "c20-default-count" if hkind != "cset2" else "c20-cset-cache-not-flushed")
+    if hkind == "cset2":
+        # the source must keep counting too: one insert per rank after everything
+        marks = {k: v for d in per for (k, v) in d["ms"] if k.startswith(b"\x02marker")}
+        late = {k: v for d in per for (k, v) in d["ms"] if k.startswith(b"\x03late")}
+        if len(marks) != ranks or any(v != 1 for v in marks.values()) or len(late) != ranks or any(v != 1 for v in late.values()):
+            fail(f"source counting_set lost inserts made after serialize: markers {sorted(marks.values())}, late {sorted(late.values())}, expected {ranks} x 1 each",
+                 "c20-cset-cache-not-flushed")
 
     # ---------------- correspondence
     q_esc, q_load = [], []
@@ -462,12 +521,20 @@ def check_case(res, case, sr, model_ok):
                                           "case": dict(cs, rank=r)})
     res.evaluations += 1
     res.traces_validated += ranks
-    res.count(kind)
+    res.count(hkind)
     res.count("pending" if not (case["flags"] & 2) else "barrier-first")
     res.count("routing=%s" % case.get("routing", "NONE"))
     res.count("comm-buffer-kb=%s" % case.get("buffer_kb"))
+    res.count("issend-freq=%s irecvs=%s isends-wait=%s" % (case.get("issend_freq"), case.get("num_irecvs"), case.get("isends_wait")))
+    if case.get("placement") == "cyclic":
+        res.count("placement=cyclic")
     res.count("target-prepopulated" if case["flags"] & 1 else "target-empty")
     res.count("ranks=%d" % ranks)
+    if case["flags"] & 8192:
+        res.count("dependent-pairs-pending")
+        feats.add("dependent-pairs")
+    if hkind == "cset2":
+        feats.add("two-counting-sets" + ("+source-first" if case["flags"] & 4096 else "+target-first"))
     if case["flags"] & 1024:
         res.count("target-has-pending-ops")
         feats.add("target-pending")
@@ -576,7 +643,7 @@ def run(tier, seed, model_ok=True):
         return res
     if not model_ok:
         res.corr_failures.append({"relation": "model driver available", "what": "Lean library does not build", "case": None})
-    cases = gen_cases(tier, seed)
+    cases = rotate_env(gen_cases(tier, seed))
     for c, sr in C.pmap(lambda c: (c, run_case(binary, c)), cases):
         check_case(res, c, sr, model_ok)
     check_tokens(res, binary, seed, tier, model_ok)
@@ -594,7 +661,7 @@ def replay(data):
     if binary is None:
         print(err[-500:])
         return False
-    keep = {k: case[k] for k in ("kind", "nodes", "ppn", "n", "flags", "seed", "sim_seed", "routing", "buffer_kb") if k in case}
+    keep = {k: case[k] for k in ("kind", "nodes", "ppn", "n", "flags", "seed", "sim_seed") + ENV_KEYS if k in case}
     sr = run_case(binary, keep)
     res = C.Result()
     check_case(res, keep, sr, True)
